@@ -298,6 +298,20 @@ func Leaves(v ssa.Value, opts SliceOpts) []ssa.Value {
 		case *ssa.MakeSlice, *ssa.MakeMap, *ssa.MakeChan, *ssa.MakeClosure:
 			addLeaf(v)
 		case *ssa.Call:
+			if bi, ok := x.Call.Value.(*ssa.Builtin); ok && bi.Name() == "append" {
+				for i, a := range x.Call.Args {
+					if i == 1 {
+						if elems := UnpackVariadic(a); elems != nil {
+							for _, e := range elems {
+								visit(e, depth)
+							}
+							continue
+						}
+					}
+					visit(a, depth)
+				}
+				return
+			}
 			if depth < opts.MaxDepth {
 				if f := x.Call.StaticCallee(); f != nil && f.Blocks != nil {
 					// follow results of the callee; parameters map back to args
